@@ -28,6 +28,7 @@ RULE = (
     "open/ev(stream)/close over 1-3 runs). Non-trivial: a callback actually raised AND (ignore: a later-subscribed callback "
     "matches the same document and more documents follow; propagate: the plan had documents left to emit). Distinct = "
     "distinct canonical JSON of the case."
+    ' Callbacks are drawn as plain functions, functools.partial objects, objects with __call__ and bound methods.'
 )
 ASSUMPTIONS = [
     "callbacks raise Exception subclasses only (the registry does not intercept BaseException)",
